@@ -132,6 +132,44 @@ theorem C13_handshake_garbage (clean : Bool) (b0 b1 : UInt8) (rest : Bytes) (e :
   rcases h with h | h <;> simp [h] at hh
 
 /-! ## Non-vacuity -/
+/-- a decision of the client's remaining-length loop on the bytes received so far is the decision on the whole stream -/
+theorem C13_length_decision_stable (a b : Bytes) (shift size : Nat) (r : Option (Nat × Bytes))
+    (h : clientRemLen a shift size = some r) :
+    clientRemLen (a ++ b) shift size = some (r.map fun p => (p.1, p.2 ++ b)) := by
+  induction a generalizing shift size with
+  | nil => simp [clientRemLen] at h
+  | cons x xs ih =>
+    simp only [List.cons_append, clientRemLen] at h ⊢
+    cases hstep : remLenStep shift size x with
+    | done n => rw [hstep] at h; simp only at h ⊢; cases h; rfl
+    | tooLong => rw [hstep] at h; simp only at h ⊢; cases h; rfl
+    | more n => rw [hstep] at h; simp only at h ⊢; exact ih _ _ h
+
+/-- the client reads back its own remaining-length encoding (and any conforming one) -/
+theorem C13_client_reads_encoding (n : Nat) (r : Bytes) (h : n ≤ Facts.packetMax) :
+    clientRemLen (encodeVarint n ++ r) 0 0 = some (some (n, r)) :=
+  ((C13_remaining_length _).1 n r).mpr (decodeVarint_encodeVarint n r h).1
+
+/-- Fragmentation inside the length field: whatever part `a` of a stream that starts with a conforming
+remaining length has arrived, the loop either asks for more or decides the true size with the true rest;
+it never decides another size, and never calls a conforming length too long. -/
+theorem C13_fragmented_length (n : Nat) (r a b : Bytes) (h : n ≤ Facts.packetMax)
+    (hs : a ++ b = encodeVarint n ++ r) :
+    clientRemLen a 0 0 = none ∨ ∃ rest, clientRemLen a 0 0 = some (some (n, rest)) ∧ rest ++ b = r := by
+  cases hc : clientRemLen a 0 0 with
+  | none => exact Or.inl rfl
+  | some d =>
+    right
+    have h1 := C13_length_decision_stable a b 0 0 d hc
+    rw [hs, C13_client_reads_encoding n r h] at h1
+    cases d with
+    | none => simp at h1
+    | some p =>
+      simp only [Option.map_some, Option.some.injEq, Prod.mk.injEq] at h1
+      exact ⟨p.2, by rw [h1.1], h1.2.symm⟩
+
+example : clientRemLen [0x80] 0 0 = none ∧ clientRemLen [0x80, 0x01, 0x30] 0 0 = some (some (128, [0x30])) := by decide
+
 example : clientRemLen [0x85, 0x80, 0x80, 0x80, 0x00] 0 0 = some none := by decide
 example : clientRemLen [0xff, 0xff, 0xff, 0x7f, 0x01] 0 0 = some (some (268435455, [0x01])) := by decide
 
